@@ -26,7 +26,7 @@ SymSet(A)        == {A[i] : i \in DOMAIN A}
 Sq(A, s)         == [alph |-> A, sym |-> s]
 WellFormedSeq(S) == IsAlphabet(S.alph) /\ \A i \in DOMAIN S.sym : S.sym[i] \in SymSet(S.alph)
 CodeOf(A, x)     == (CHOOSE i \in DOMAIN A : A[i] = x) - 1            \* Alphabet.encode
-Codes(S)         == [i \in DOMAIN S.sym |-> CodeOf(S.alph, S.sym[i])]  \* Sequence.code
+Codes(S)         == TLCEval([i \in DOMAIN S.sym |-> CodeOf(S.alph, S.sym[i])])  \* Sequence.code
 \* A.extends(B): B is a prefix of A (same symbol <-> code mapping on B)
 Extends(A, B)    == Len(B) <= Len(A) /\ SubSeq(A, 1, Len(B)) = B
 
@@ -39,7 +39,7 @@ ProtAlph == <<"A", "C", "D", "E", "F", "G", "H", "I", "K", "L", "M", "N", "P", "
 SeqSum(s)  == FoldLeft(LAMBDA a, b : a + b, 0, s)
 SeqMax(s)  == FoldLeft(LAMBDA a, b : IF b > a THEN b ELSE a, s[1], s)   \* s non-empty
 SeqMin(s)  == FoldLeft(LAMBDA a, b : IF b < a THEN b ELSE a, s[1], s)
-Upto0(n)   == [i \in 1..n |-> i - 1]                                    \* np.arange(n)
+Upto0(n)   == TLCEval([i \in 1..n |-> i - 1])                                  \* np.arange(n)
 Ascending(s) == \A i \in 1..(Len(s) - 1) : s[i] < s[i + 1]
 
 NoProfile == [k |-> 0, rows |-> <<>>, gaps |-> <<>>, alph |-> <<>>]
@@ -171,6 +171,7 @@ GetCodes(aln) ==
   [r \in DOMAIN aln.seqs |->
      LET cs == Codes(aln.seqs[r])
      IN [c \in DOMAIN aln.trace |-> IF aln.trace[c][r] = -1 THEN -1 ELSE cs[aln.trace[c][r] + 1]]]
+  \* (TLCEval is applied where the codes are used: FromAlignment)
 \* gapped rows ("-" = gap) -> alignment (Alignment.trace_from_strings)
 GapSym == "-"
 AlnFromRows(alphs, rows) ==
@@ -224,8 +225,8 @@ FromAlignment(aln, optAlph) ==
   IN IF oa = <<>> THEN Rejected(NoProfile)
      ELSE LET A     == oa[1]
               k     == Len(A)
-              codes == GetCodes(aln)
-              cc    == [c \in DOMAIN aln.trace |-> ColumnCountsImpl(Column(codes, c), k)]
+              codes == TLCEval(GetCodes(aln))
+              cc    == TLCEval([c \in DOMAIN aln.trace |-> ColumnCountsImpl(Column(codes, c), k)])
           IN Res("ok", [k |-> k, rows |-> [c \in DOMAIN cc |-> cc[c].sym],
                         gaps |-> [c \in DOMAIN cc |-> cc[c].gap], alph |-> A], <<>>)
 
@@ -269,11 +270,13 @@ PokeGaps(p, i, v)       == Res("ok", [p EXCEPT !.gaps[i + 1] = v], <<>>)
 
 (* --- indexing: the count tables indexed along the position axis (PyIndex.Resolve); an integer
        does not collapse the axis                                                           *)
-Take(s, pos) == [i \in DOMAIN pos |-> s[pos[i] + 1]]
+Take(s, pos) == TLCEval([i \in DOMAIN pos |-> s[pos[i] + 1]])
+ResolvePos(ix, n) == LET r == Resolve(ix, n) IN [ok |-> r.ok, pos |-> IF r.ok THEN TLCEval(r.pos) ELSE <<>>]
 GetItem(p, ix) ==
-  LET r == Resolve(ix, Len(p.rows))
-  IN IF ~r.ok THEN Rejected(p)
-     ELSE Res("ok", [p EXCEPT !.rows = Take(p.rows, r.pos), !.gaps = Take(p.gaps, r.pos)], <<>>)
+  \* (the quantifier over a singleton binds the value once; a LET would be re-evaluated per use)
+  CHOOSE res \in { IF ~r.ok THEN Rejected(p)
+                   ELSE Res("ok", [p EXCEPT !.rows = Take(p.rows, r.pos), !.gaps = Take(p.gaps, r.pos)], <<>>) :
+                   r \in {ResolvePos(ix, Len(p.rows))} } : TRUE
 \* integer index as a window of width one; IntWindowCode is the code's slice(i, i + 1)
 \* (finding X04-getitem-minus-one), IntWindowFix the proposed slice(i, i + 1 or None)
 IntWindowCode(i) == <<"slice", <<Some(i), Some(i + 1), None>>>>
@@ -296,8 +299,8 @@ Law_IndexCompose(p, ix1, ix2) ==
        LET b == GetItem(a.p, ix2)
            r1 == Resolve(ix1, Len(p.rows))
            r2 == Resolve(ix2, Len(r1.pos))
-       IN b.oc = "ok" => (r2.ok /\ b.p.rows = Take(p.rows, Take(r1.pos, r2.pos))
-                                /\ b.p.gaps = Take(p.gaps, Take(r1.pos, r2.pos)))
+       IN b.oc = "ok" => (r2.ok /\ b.p.rows = Take(p.rows, Take(TLCEval(r1.pos), TLCEval(r2.pos)))
+                                /\ b.p.gaps = Take(p.gaps, Take(TLCEval(r1.pos), TLCEval(r2.pos))))
 
 (* --- equality: the three attributes; anything that is not a profile is different *)
 ProfileEq(p, other) ==
@@ -392,8 +395,8 @@ IsNaN(x)     == x[2] = 0
 \*      = (k C_S + c_p) / (k (sum + c_p));  0/0 (no symbol, no pseudocount) is "not a number"
 ProbEntry(c, total, k, pc) == Reduce(<<k * c + pc, k * (total + pc)>>)
 ProbRows(p, pc) ==
-  [i \in DOMAIN p.rows |-> LET t == SeqSum(p.rows[i])
-                           IN [j \in 1..p.k |-> ProbEntry(p.rows[i][j], t, p.k, pc)]]
+  TLCEval([i \in DOMAIN p.rows |-> LET t == SeqSum(p.rows[i])
+                                   IN [j \in 1..p.k |-> ProbEntry(p.rows[i][j], t, p.k, pc)]])
 Dom_Pseudocount(pc) == pc >= 0                       \* documented refusal below zero
 ProbabilityMatrix(p, pc) ==
   IF pc < 0 THEN Rejected(p) ELSE Res("ok", p, ProbRows(p, pc))
@@ -407,7 +410,7 @@ Dom_Background(p, optBg) ==
 OddsRows(p, optBg, pc) ==
   LET bg == Background(p, optBg)
       pr == ProbRows(p, pc)
-  IN [i \in DOMAIN pr |-> [j \in 1..p.k |-> IF IsNaN(pr[i][j]) THEN <<0, 0>> ELSE RatDiv(pr[i][j], bg[j])]]
+  IN TLCEval([i \in DOMAIN pr |-> [j \in 1..p.k |-> IF IsNaN(pr[i][j]) THEN <<0, 0>> ELSE RatDiv(pr[i][j], bg[j])]])
 OddsMatrix(p, optBg, pc) ==
   IF pc < 0 THEN Rejected(p) ELSE Res("ok", p, OddsRows(p, optBg, pc))
 
@@ -434,7 +437,7 @@ Dom_ProductFits(p, optBg, pc) ==
 
 Law_Probabilities(p, pc) ==
   (WellFormedProfile(p) /\ Dom_Counts(p) /\ pc >= 0) =>
-    LET m == ProbRows(p, pc) IN
+    \A m \in {ProbRows(p, pc)} :
     \A i \in DOMAIN p.rows :
        LET t == SeqSum(p.rows[i]) IN
        IF t + pc = 0 THEN \A j \in 1..p.k : IsNaN(m[i][j])
